@@ -1,6 +1,7 @@
 import Pandora.Drv.Util
 import Pandora.Spec.C02Flat
 import Pandora.Model.C02Par
+import Pandora.Model.C02Cb
 
 /-!
 C02 driver.  For every case line: the MODEL's prediction of the observation (sequential: `seqRun` on the object
@@ -352,6 +353,139 @@ def handleStress (kv : List (String × String)) (impl : String) : String × Stri
     ("-", verdict)
   | _ => ("-", "fail:driver:unparsable tree")
 
+/-! ### mode=cbconc: the onFinish wrapper under controlled overlap of its callers
+
+events: `i:G` the wrapped call of caller i returned, `i:C` caller i is inside onFinish, `i:W` caller i is blocked in the
+wrapper's once-primitive, `i:N:t:ok` / `i:L:n` caller i's call returned; `#CB:k` = how often onFinish ran. -/
+open Pandora.Model.C02.CbW
+
+/-- the model of the wrapped schedule: the object `build` makes for the tree, each call one atomic action -/
+def lvlInner (d : Nat) : Inner (Lvl d) where
+  act s _ op now := match op with
+    | .next => match (lvlOps d).next s now with
+      | .ok (s', tx, ok) => (s', some (.tok tx ok))
+      | .error e => (s, some (.panic e))
+    | .left => match (lvlOps d).left s now with
+      | .ok (s', n) => (s', some (.cnt n))
+      | .error e => (s, some (.panic e))
+
+def fmtWEv (now0 : Int) : Nat × Int × WEv → Option String
+  | (i, _, .got _) => some s!"{i}:G"
+  | (i, _, .cbBegin) => some s!"{i}:C"
+  | (i, _, .blocked) => some s!"{i}:W"
+  | (i, _, .ret (.tok tx ok)) => some s!"{i}:N:{fmtT now0 tx}:{if ok then 1 else 0}"
+  | (i, _, .ret (.cnt n)) => some s!"{i}:L:{n}"
+  | (i, _, .ret (.panic m)) => some s!"{i}:P:{m}"
+  | _ => none
+
+structure CEv where
+  tid : Nat
+  kind : String     -- G C W N L P
+  tx : String := ""
+  ok : Bool := false
+  n : Int := 0
+
+def CEv.finishing (e : CEv) : Bool := (e.kind == "N" && !e.ok) || (e.kind == "L" && e.n == 0)
+def CEv.isRet (e : CEv) : Bool := e.kind == "N" || e.kind == "L"
+
+def parseCEv (s : String) : Option CEv :=
+  match s.splitOn ":" with
+  | [t, "G"] => do pure { tid := ← t.toNat?, kind := "G" }
+  | [t, "C"] => do pure { tid := ← t.toNat?, kind := "C" }
+  | [t, "W"] => do pure { tid := ← t.toNat?, kind := "W" }
+  | [t, "N", tx, ok] => do pure { tid := ← t.toNat?, kind := "N", tx := tx, ok := ok == "1" }
+  | [t, "L", n] => do pure { tid := ← t.toNat?, kind := "L", n := ← n.toInt? }
+  | t :: "P" :: _ => do pure { tid := ← t.toNat?, kind := "P" }
+  | _ => none
+
+/-- the k-th `G` of a caller belongs to its k-th returned result: the log in the order of the WRAPPED calls -/
+def innerOrder : List CEv → List CEv → List Ev
+  | [], _ => []
+  | e :: rest, all =>
+    if e.kind == "G" then
+      -- results of this caller that come after this point of the log = those not yet paired
+      match (rest.filter fun x => x.tid == e.tid && x.isRet).head? with
+      | some r => ⟨r.tid, r.kind, r.tx, r.ok, r.n⟩ :: innerOrder rest all
+      | none => innerOrder rest all
+    else innerOrder rest all
+
+/-- has the caller that logged `C` at position `c` logged anything between `c` and position `k` (exclusive)? -/
+def completedBefore (evs : List CEv) (k : Nat) : Option Bool :=
+  -- none: no `C` before k; some b: there is one, and b says whether that callback had returned before k
+  let pre := evs.take k
+  match pre.findIdx? (·.kind == "C") with
+  | none => none
+  | some c =>
+    match pre[c]? with
+    | none => none
+    | some ce => some ((pre.drop (c + 1)).any fun x => x.tid == ce.tid)
+
+def judgeCb (now0 : Int) (A0 : Abs) (impl : String) : String :=
+  let (logS, cbS) := match impl.splitOn "#CB:" with
+    | [a, b] => (a, b)
+    | _ => (impl, "?")
+  if (splitList logS ";").any (fun t => t == "DEADLOCK" || t.endsWith ":HANG") then
+    "fail:hang:a caller of the wrapper never came back (deadlock)" else
+  match (splitList logS ";").mapM parseCEv with
+  | none => s!"fail:crash:unparsable log {impl.take 80}"
+  | some evs =>
+    if evs.any (·.kind == "P") then s!"fail:panic:a call panicked: {impl.take 100}" else
+    let cs := evs.filter (·.kind == "C")
+    if cs.length > 1 || (cbS != "0" && cbS != "1") then
+      s!"fail:onfinish:onFinish ran {cbS} times (callers {cs.map (·.tid)} were inside it)" else
+    if cbS != toString cs.length then s!"fail:onfinish:onFinish ran {cbS} times but {cs.length} callers entered it" else
+    -- a caller learns that the schedule is finished only after onFinish has completed
+    let early := (List.range evs.length).find? fun k =>
+      match evs[k]? with
+      | some e => e.isRet && e.finishing &&
+          (match completedBefore evs k with
+           | none => true
+           | some done => !(done || (match (evs.take k).find? (·.kind == "C") with | some c => c.tid == e.tid | none => false)))
+      | none => false
+    match early with
+    | some k =>
+      let who := match evs[k]? with | some e => e.tid | none => 0
+      if (completedBefore evs k).isNone then s!"fail:onfinish:event {k}: caller {who} was told the schedule is finished but onFinish never ran"
+      else s!"fail:onfinish:event {k}: caller {who} was told the schedule is finished while onFinish was still running"
+    | none =>
+      -- onFinish is entered only by a caller that got a finishing result
+      let wrong := (List.range evs.length).find? fun k =>
+        match evs[k]? with
+        | some e => e.kind == "C" &&
+            (match ((evs.drop (k + 1)).filter fun x => x.tid == e.tid && x.isRet).head? with
+             | some r => !r.finishing
+             | none => false)
+        | none => false
+      match wrong with
+      | some k => s!"fail:onfinish:event {k}: onFinish ran for a result that is not a finishing one"
+      | none =>
+        match replay now0 (innerOrder evs evs) [A0] 0 with
+        | .error m => "fail:" ++ m
+        | .ok _ => "ok"
+
+def handleCbConc (kv : List (String × String)) (impl : String) : String × String :=
+  let treeS := getS kv "tree"
+  let now0 := (getI? kv "now").getD 0
+  let started := getS kv "start" "1" != "0"
+  let progs := progsOf (getS kv "prog")
+  match parseTree (treeS.length + 1) treeS.toList, parseNats (getS kv "sched") with
+  | some (t, []), some sched =>
+    let d := t.depth
+    match build now0 d t with
+    | .error e => ("P:" ++ e, "fail:panic:build")
+    | .ok s =>
+      let s1 : Except String (Lvl d) := if started then (lvlOps d).start s 0 else .ok s
+      match s1 with
+      | .error e => ("P:" ++ e, "fail:panic:start")
+      | .ok s1 =>
+        let st := wrun (lvlInner d) (winit s1 progs) (sched.map fun i => (i, now0))
+        let nOps := progs.foldl (fun a p => a + p.length) 0
+        let st := wdrain (lvlInner d) now0 (4 * nOps + 16) st
+        let m := ";".intercalate (st.log.reverse.filterMap (fmtWEv now0)) ++ s!"#CB:{st.calls}"
+        let A0 : Abs := if started then .running (inst (flat t) 0) else .unstarted (flat t)
+        (m, judgeCb now0 A0 impl)
+  | _, _ => ("-", "fail:driver:unparsable cbconc input")
+
 def handle : Handler := fun input impl =>
   let kv := parseKV input
   -- a call that never returned (the harness gave up waiting: a lock that is not released, a lost wake-up)
@@ -360,6 +494,10 @@ def handle : Handler := fun input impl =>
   | "seq" => handleSeq kv impl
   | "conc" => handleConc kv impl
   | "stress" => handleStress kv impl
+  | "cbconc" => handleCbConc kv impl
+  -- nested composites, scheduling points of every level active: judged like a free run (`#W:k` = how often a
+  -- released caller was seen waiting for a lock; coverage information only)
+  | "nconc" => handleStress kv ((impl.splitOn "#W:").headD impl)
   | _ => ("-", "skip:mode")
 
 end Pandora.Drv.C02
